@@ -40,7 +40,7 @@ Failed(ev) ==
           [] c = "absent_remove_raises" -> ev.op = "remove" /\ ev.arg \notin model /\ ev.raised = ""
           [] c = "present_remove_raises" -> ev.op = "remove" /\ ev.arg \in model /\ ev.raised # ""
           [] c = "add_raises" -> ev.op = "add" /\ ev.raised # ""
-          [] c = "drawall_members" -> ev.op = "drawall" /\ SetOf(ev.results) # model
+          [] c = "drawall_members" -> ev.op \in {"drawall", "drawsupport"} /\ SetOf(ev.results) # model
           [] c = "drawall_uniform" -> ev.op = "drawall" /\           \* exact law of one draw over its whole decision tree
                  ({ev.pm[i][1] : i \in DOMAIN ev.pm} # model \/ \E i \in DOMAIN ev.pm : ev.pm[i][2] * Cardinality(model) # ev.pm[i][3])}
 
